@@ -230,6 +230,10 @@ func (ctx *Context) makeDetailStr(details []BufferSpan) string {
 
 	var m []Group
 	for _, i := range details {
+		if int(i.End) > offset || i.Begin > i.End || i.Begin < 0 {
+			// 不属于已匹配文本的标注(例如来自被回溯放弃的分支)，跳过以免切片越界
+			continue
+		}
 		// fmt.Println("?", i, lastEnd)
 		if i.Begin > lastEnd {
 			curPoint = i.Begin
